@@ -145,4 +145,34 @@ def demoEngine : Engine := { Engine.init with store := { objs := [demoObj 1, dem
 example : demoEngine.store.Inv ∧ 2 < demoEngine.store.nextUid ∧ ∀ o ∈ demoEngine.store.objs, o.uid ≠ 2 := by
   refine ⟨⟨?_, ?_⟩, ?_, ?_⟩ <;> simp [demoEngine, demoObj, Engine.init]
 
+/-! A store an EARLIER run of the server left behind (the fixtures of `corpus/legacy_db`, on which the same statements
+are checked against the real engine): `emptied` - three objects created and all destroyed, the allocator stands at 4 and
+there are no rows; `mixed` - identifiers 8 and 13 dead, the allocator at 14.  The theorems above start from ANY store
+with the invariant, so they cover histories that begin on such a file: -/
+def emptiedStore : Engine := { Engine.init with store := { objs := [], nextUid := 4 } }
+def mixedStore : Engine :=
+  { Engine.init with store := { objs := [1, 2, 3, 4, 5, 6, 7, 9, 10, 11, 12].map demoObj, nextUid := 14 } }
+
+theorem emptied_inv : emptiedStore.store.Inv := by
+  refine ⟨?_, ?_⟩ <;> simp [emptiedStore, Engine.init]
+
+theorem mixed_inv : mixedStore.store.Inv := by
+  refine ⟨?_, ?_⟩ <;> simp [mixedStore, demoObj, Engine.init] <;> decide
+
+/-- on the emptied file no history ever brings identifier 1, 2 or 3 back, and every object it creates is numbered 4 or more -/
+theorem emptied_file_never_reuses (steps : List Step) :
+    ∀ o ∈ (run emptiedStore steps).store.objs, 4 ≤ o.uid := by
+  intro o ho
+  rcases new_identifiers_fresh emptiedStore steps emptied_inv o ho with ⟨y, hy, _⟩ | h
+  · simp [emptiedStore, Engine.init] at hy
+  · simpa [emptiedStore, Engine.init] using h
+
+/-- on the mixed file the dead identifiers 8 and 13 stay dead through every history -/
+theorem mixed_file_dead_stay_dead (steps : List Step) :
+    ∀ o ∈ (run mixedStore steps).store.objs, o.uid ≠ 8 ∧ o.uid ≠ 13 := by
+  intro o ho
+  refine ⟨destroyed_stays_dead mixedStore 8 mixed_inv (by simp [mixedStore, Engine.init]) ?_ steps o ho,
+          destroyed_stays_dead mixedStore 13 mixed_inv (by simp [mixedStore, Engine.init]) ?_ steps o ho⟩ <;>
+    simp [mixedStore, demoObj, Engine.init]
+
 end Kmip.C07
